@@ -169,7 +169,7 @@ class C03(Check):
 
     def spaces(self, tier):
         Q = tier == "quick"
-        styles = ("one", "brk", "str", "fstr0", "fstr1", "coll") if Q else layouts.STYLES
+        styles = ("one", "brk", "str", "fstr0", "fstr1", "coll", "uni") if Q else layouts.STYLES
         ctxs = layouts.CONTEXTS
         return [
             Space("two-calls", {"ops": layouts.OPS, "params": layouts.PARAMS, "styles": styles, "contexts": ctxs},
